@@ -1,10 +1,10 @@
 #!/bin/bash
-# bin/seedall.sh : every kept seeded change against the checks recorded as detecting it (quick tier)
+# bin/seedall.sh : every kept seeded change against the checks recorded as detecting it (quick tier; the repository baseline was run when each change was kept and is not repeated here)
 cd "$(dirname "$0")/.."
 for d in seeded/*/; do
   id=$(basename $d)
   checks=$(python3 -c "import json;print(' '.join(json.load(open('$d/meta.json'))['detected_by']))")
   [ -z "$checks" ] && { echo "== $id -> (neutralised, skipped)"; continue; }
   echo "== $id -> $checks"
-  bin/seedtest.sh "$PWD/$d" $checks 2>&1 | grep -v "^baseline" | cut -c1-160
+  SEEDTEST_NO_BASELINE=1 bin/seedtest.sh "$PWD/$d" $checks 2>&1 | grep -v "^baseline" | cut -c1-160
 done
